@@ -1,10 +1,21 @@
-import YaclibModel.Proofs.CoSharedMutex
+import YaclibModel.Proofs.CoSharedMutexS_spinLoad_1
+import YaclibModel.Proofs.CoSharedMutexS_spinLoad_2
+import YaclibModel.Proofs.CoSharedMutexS_spinLoad_3
+import YaclibModel.Proofs.CoSharedMutexS_spinLoad_4
+import YaclibModel.Proofs.CoSharedMutexS_spinLoad_5
+import YaclibModel.Proofs.CoSharedMutexS_spinLoad_6
 namespace Yaclib.CoSharedMutex
 
-set_option maxHeartbeats 4000000 in
 theorem inv_spinLoad {cfg : Cfg} {s : State} (hi : Inv cfg s) (c : Cid) (k : SpinK) (sawFree : Bool) (h : s.pc c = .spinning k true) :
     Inv cfg ({ s with pc := upd s.pc c (.spinning k (!sawFree)) }) := by
-  cases hi
-  cases k <;> cases sawFree <;> simp only [Bool.not_true, Bool.not_false] <;> sm_auto [List.count_le_length]
+  have hkd : k = .rd ∨ k = .wr ∨ k = .un := by cases k <;> simp
+  have hsd : sawFree = false ∨ sawFree = true := by cases sawFree <;> simp
+  rcases hkd with hk | hk | hk <;> rcases hsd with hsf | hsf
+  · exact inv_spinLoad_1 hi c k sawFree h hk hsf
+  · exact inv_spinLoad_2 hi c k sawFree h hk hsf
+  · exact inv_spinLoad_3 hi c k sawFree h hk hsf
+  · exact inv_spinLoad_4 hi c k sawFree h hk hsf
+  · exact inv_spinLoad_5 hi c k sawFree h hk hsf
+  · exact inv_spinLoad_6 hi c k sawFree h hk hsf
 
 end Yaclib.CoSharedMutex
